@@ -43,13 +43,21 @@ func checkC12r(run *Run, res *Result) {
 		allEndT  int64
 		allEndN  int
 		sessions int
+		awaiting map[int][2]int64 // vb -> (time, event number) of a transient end whose re-open is due
+		quietN   bool             // no stop / rebalance in progress
 	}
 	ms := map[int]*sess{}
 	get := func(m int) *sess {
 		if ms[m] == nil {
-			ms[m] = &sess{open: map[int]string{}, ended: map[int]bool{}, allEndT: -1}
+			ms[m] = &sess{open: map[int]string{}, ended: map[int]bool{}, allEndT: -1, awaiting: map[int][2]int64{}}
 		}
 		return ms[m]
+	}
+	parked := false
+	for k := range res.Probes {
+		if strings.HasPrefix(k, "parked-at:stream.wait") {
+			parked = true // the stale-finish-token family: judged by R4 only
+		}
 	}
 	stopped := map[int]bool{}
 	closeCalled := map[int]bool{}
@@ -66,12 +74,24 @@ func checkC12r(run *Run, res *Result) {
 			case "BeforeStreamStart":
 				s.open, s.ended, s.started, s.allEndT = map[int]string{}, map[int]bool{}, false, -1
 				s.sessions++
+				s.awaiting = map[int][2]int64{}
 			case "AfterStreamStart":
 				s.started = true
+			case "BeforeStreamStop", "BeforeRebalanceStart":
+				s.started = false
+				s.awaiting = map[int][2]int64{} // the session is being closed: nothing is re-opened any more
 			}
 		case journal.KSReq:
 			if e.S2 == "ok" {
 				get(e.M).open[e.Vb] = e.ID
+			}
+			if s := get(e.M); len(s.awaiting) > 0 {
+				if _, ok := s.awaiting[e.Vb]; ok {
+					delete(s.awaiting, e.Vb)
+					if s.sessions > 1 {
+						res.probe("reopened-after-transient-end:after-a-rebalance")
+					}
+				}
 			}
 		case journal.KEmit:
 			s := get(e.M)
@@ -79,6 +99,9 @@ func checkC12r(run *Run, res *Result) {
 				if e.I == 0 {
 					s.ended[e.Vb] = true
 					res.probe("final-end")
+				}
+				if transientEnd[e.I] && s.started && !closeCalled[e.M] && !stopped[e.M] && !parked {
+					s.awaiting[e.Vb] = [2]int64{e.T, int64(e.N)}
 				}
 				delete(s.open, e.Vb)
 				if len(s.open) == 0 && len(s.ended) > 0 && s.allEndT < 0 {
@@ -101,11 +124,27 @@ func checkC12r(run *Run, res *Result) {
 			if e.S == "Start" {
 				stopped[e.M] = true
 				res.probe("client-stopped-after-last-final-end")
+				if s := get(e.M); len(s.awaiting) > 0 && !closeCalled[e.M] {
+					for _, vb := range sortedKeys(s.awaiting) {
+						res.violate("C12", "R4-stopped-with-live-vbuckets", e.N, "plain",
+							"member %d (finite mode, session %d): the client stopped although the stream of vb %d had ended with a re-openable status (event #%d) and was never re-opened", e.M, s.sessions, vb, s.awaiting[vb][1])
+					}
+					s.awaiting = map[int][2]int64{}
+				}
 			}
 		}
 	}
 	if res.DeathKind != "" || !run.Ended {
 		return
+	}
+	for _, m := range sortedKeys(ms) {
+		s := ms[m]
+		for _, vb := range sortedKeys(s.awaiting) {
+			if a := s.awaiting[vb]; endT-a[0] > 15_000_000_000 && !stopped[m] {
+				res.violate("C12", "R1-never-reopened", int(a[1]), "plain",
+					"member %d vb %d (session %d): the stream ended with a re-openable status and was not re-opened within %s", m, vb, s.sessions, fmtDur(endT-a[0]))
+			}
+		}
 	}
 	for m, s := range ms {
 		if s.allEndT >= 0 && s.started && !stopped[m] && !closeCalled[m] && endT-s.allEndT > bound && len(s.open) == 0 {
